@@ -163,7 +163,7 @@ func readDB(path string, topics []string) string {
 	for _, ts := range states {
 		var r []string
 		for id, e := range ts.EventStates {
-			r = append(r, esTok(id, e.Level, e.Time.UnixNano()))
+			r = append(r, esTok(id, e.Level, e.Time.UnixNano(), e.Duration, e.Message, e.Details))
 		}
 		sort.Strings(r)
 		found[ts.Topic] = r
